@@ -144,5 +144,5 @@ func scheduleNote(n int) string {
 	if n == 0 {
 		return "no goroutine schedules are explored by this check"
 	}
-	return "goroutine scheduling decisions (which runnable thread continues, whether to preempt at a synchronisation operation, which ready select case is taken, whether an armed timer has fired) are symbolic inputs sched#n whose feasible values the solver enumerates; each enumerated schedule is one path. Where the harness data is concrete, obligations on a given schedule fold to constants (counted as trivial): the all-schedules-within-the-bound claim rests on the enumeration of the schedule variables, the counterexample's model pins them for replay"
+	return "goroutine scheduling decisions (which runnable thread continues, whether to preempt at a synchronisation operation, which ready select case is taken, whether an armed timer has fired) are symbolic inputs sched#n, each constrained only to the number of options at that point, so every value is feasible by construction and each is explored on its own path with sched#n = value in the path condition. Where the harness data is concrete, obligations on a given schedule fold to constants (counted as trivial): the all-schedules-within-the-bound claim rests on covering every value of every schedule variable; a counterexample's model carries them and the replay file pins them"
 }
